@@ -772,6 +772,7 @@ def run(ctx):
                 "every (program, simulation) of generated configurations, the first one forced to have a repairable and a "
                 "non-repairable intermittent source; non-trivial/distinct by (#days, #new, #repaired, #natural, #expired)")
     core.lean_stage(ctx, MODULE, FILE, drivers=["drv_world", "drv_emission"])
+    EC.tie_stage(ctx)  # layer 3: the emission methods, translated from the current source, are the model's functions
     component_stage(ctx)
     intermittent_witness(ctx)
     wholerun(ctx)
